@@ -12,7 +12,7 @@
 (***************************************************************************)
 EXTENDS RuleSet, TLC, Json, FiniteSets
 
-CONSTANTS K, MaxEvals, MaxLive, Grain, AllowDrop, NRules
+CONSTANTS K, MaxEvals, MaxLive, Grain, AllowDrop, NRules, Shape
 
 VARIABLES rsv,     \* the ruleset (must never change)
           cfg,     \* [kf, kg, same] chosen initially
@@ -28,10 +28,15 @@ MkRS(kf, kg) ==
    funcs |-> << [name |-> S("f"), cacheable |-> TRUE, suspend |-> kf, script |-> Echo],
                 [name |-> S("g"), cacheable |-> FALSE, suspend |-> kg, script |-> Echo] >>,
    syms |-> <<>>]
-InputOf(id) == VMap(<< <<S("a"), I(IF cfg.same THEN 1 ELSE id)>> >>)
+\* Shape = "full": the three-rule ruleset, inputs all equal or all different.
+\* Shape = "single": only rule r2 (one cacheable call f(a)); evaluation 1 gets a = 1, all later ones a = 2, so that
+\* an evaluation abandoned inside f(2) is followed by a fresh evaluation that calls f(2) first.
+InputOf(id) == VMap(<< <<S("a"), I(IF Shape = "single" THEN (IF id = 1 THEN 1 ELSE 2) ELSE IF cfg.same THEN 1 ELSE id)>> >>)
 
+SingleRS(kf, kg) == LET full == MkRS(kf, kg) IN [full EXCEPT !.rules = <<full.rules[2]>>]
+TheRS == IF Shape = "single" THEN SingleRS(cfg.kf, cfg.kg) ELSE MkRS(cfg.kf, cfg.kg)
 Init == /\ cfg \in [kf : 0..K, kg : 0..K, same : BOOLEAN]
-        /\ rsv = MkRS(cfg.kf, cfg.kg)
+        /\ rsv = TheRS
         /\ evals = <<>> /\ gs = InitGs(rsv) /\ hist = <<>>
 
 Live == {e \in 1..Len(evals) : evals[e].status \in {"run", "ready"}}
@@ -70,7 +75,7 @@ Deterministic ==
   \A e \in 1..Len(evals) : evals[e].status = "done" =>
      evals[e].outcomes = DenRuleSet(rsv, evals[e].input, e, [j \in 1..2 |-> 0]).outcomes
 \* the ruleset and the inputs never change
-NoSideEffects == /\ rsv = MkRS(cfg.kf, cfg.kg)
+NoSideEffects == /\ rsv = TheRS
                  /\ \A e \in 1..Len(evals) : evals[e].input = InputOf(e)
 \* nothing leaks between evaluations: a cache only ever holds results of its own evaluation's calls
 NoLeak ==
